@@ -20,6 +20,7 @@ import sys
 sys.path.insert(0, os.path.dirname(os.path.dirname(os.path.abspath(__file__))))
 
 import warnings
+from fractions import Fraction as Q
 
 warnings.filterwarnings("ignore")
 
@@ -125,7 +126,9 @@ EXTRA_REQUIRES = {
 }
 
 
-ENUM = {"cider_coefs_gto_gq": {"featid": [0, 1, 2, 3, 99]}, "cider_coefs_gto_qg": {"featid": [0, 1, 2, 3, 99]}}
+ENUM = {"cider_coefs_gto_gq": {"featid": [0, 1, 2, 3, 99]}, "cider_coefs_gto_qg": {"featid": [0, 1, 2, 3, 99]},
+        # the direction flag selects which basis set is the output one (pointer-valued branch): one summary per direction
+        "multiply_atc_integrals": {"fwd": [1, 0]}, "multiply_atc_integrals_vk": {"fwd": [1, 0]}}
 _win = lambda a: [tm.mk_le(tm.ZERO, a["offset"]), tm.mk_le(a["offset"] + a["nalpha"], a["stride"])]
 EXTRA_REQUIRES.update({
     "evaluate_se_kernel_antisym": lambda a: [tm.mk_le(tm.const(2), a["nfeat"])],
@@ -187,7 +190,28 @@ def _uloc_blocks(terms_):
     return out
 
 
-CUSTOM = {"SDMXylm_yzx2xyz": _ylm_blocks, "contract_rad_to_orb_num": _uloc_blocks}
+def _shell_blocks(terms_):
+    """atc_basis_set invariant (assumed; the struct is built by C code outside this contract): ao_loc[sh+1] = ao_loc[sh] + 2 l_sh + 1 with l_sh = bas[8 sh + 1] >= 0,
+    hence the AO blocks of different shells do not overlap.  Instantiated for every index at which an ao_loc table of a basis set is read."""
+    out = []
+    by_tab = {}
+    for t in terms_:
+        for u in tm.subterms(t).values():
+            if u.op == "fi" and str(u.args[0]).endswith(".ao_loc"):
+                by_tab.setdefault(u.args[0], {})[u.args[1].id] = u.args[1]
+    for tab, idx in by_tab.items():
+        bas = tab[:-len(".ao_loc")] + ".bas"
+        size = lambda a: 2 * tm.mk_fi(bas, 8 * a + 1) + 1
+        for a in idx.values():
+            out.append(tm.mk_le(tm.ZERO, tm.mk_fi(tab, a)))
+            out.append(tm.mk_le(tm.ZERO, tm.mk_fi(bas, 8 * a + 1)))
+            for b in idx.values():
+                if a is not b:
+                    out.append(tm.mk_implies(tm.mk_lt(a, b), tm.mk_le(tm.mk_fi(tab, a) + size(a), tm.mk_fi(tab, b))))
+    return out
+
+
+CUSTOM = {"SDMXylm_yzx2xyz": _ylm_blocks, "contract_rad_to_orb_num": _uloc_blocks, "multiply_atc_integrals": _shell_blocks, "multiply_atc_integrals_vk": _shell_blocks}
 INJECTIVE = {"compute_mol_convs_single_new": ["ind_ord_fwd"], "compute_pot_convs_single_new": ["ind_ord_fwd"]}
 # functions whose race freedom depends on invariants of the C-built basis-set structs (AO count per shell = 2l+1, (lmax+1)^2 <= nlm, pair tables)
 # or on floating-point valued indices: not attempted — reported as unverified, never counted
@@ -327,7 +351,20 @@ def flush_obligations(ctx, label, sym, fq):
 def scalar_obligations(ctx, label, sym, fq):
     """(ii) every scalar written inside a region is private or a declared reduction."""
     seen = set()
+    # a shared scalar to which every thread stores the SAME constant (`fwd = 1;` normalising a flag inside the region) ends with that value whatever the team
+    # size: formally concurrent stores, value-deterministic — accepted, and listed as an assumption (stores of equal values do not interfere)
+    const_writes = {}
     for kind, t, guards, qvars, where in sym.side:
+        if kind == "shared-scalar-write":
+            vals = const_writes.setdefault(t, [])
+            v_ = guards[0] if guards else None
+            vals.append(v_ if isinstance(v_, (int, Q)) else (v_.args[0] if isinstance(v_, tm.T) and v_.op == "c" else None))
+    benign = {t for t, vals in const_writes.items() if vals and None not in vals and len(set(Q(x) for x in vals)) == 1}
+    for t in sorted(benign):
+        ctx.assume("%s: every thread stores the same constant %s to the shared scalar `%s` inside the region (concurrent stores of equal values)" % (label, const_writes[t][0], t))
+    for kind, t, guards, qvars, where in sym.side:
+        if kind == "shared-scalar-write" and t in benign:
+            continue
         if kind in ("shared-scalar-reduction", "shared-scalar-write") and (kind, t) not in seen:
             seen.add((kind, t))
             ctx.holds("%s.scalar %s written in the region is private or a reduction" % (label, t), False,
